@@ -75,8 +75,9 @@ Theorem C07_if_range_tag_mismatch : forall retry rng st t,
 Proof. exact if_range_mismatch_full. Qed.
 Print Assumptions C07_if_range_tag_mismatch.
 
+(* a date validator matches only the stored Last-Modified itself: an older AND a later date get the full 200 *)
 Theorem C07_if_range_time_mismatch : forall retry rng st t,
-  t < st_lastmod st -> range_answer retry (Some rng) (IRTime t) st <> Full 200 ->
+  t <> st_lastmod st -> range_answer retry (Some rng) (IRTime t) st <> Full 200 ->
   exists sz, range_answer retry (Some rng) (IRTime t) st = Refuse416 sz.
 Proof. exact if_range_time_mismatch_full. Qed.
 Print Assumptions C07_if_range_time_mismatch.
